@@ -126,6 +126,12 @@ def sign_check(rng):
     bad[rng.randrange(64)] ^= 1 << rng.randrange(8)
     if verify_sign(pk, msg, bytes(bad)):
         return "altered signature accepted"
+    for alt in (sig + b"\x00", sig + rng.randbytes(3), sig[:63], b""):
+        try:
+            if verify_sign(pk, msg, alt):
+                return f"a {len(alt)}-byte altered signature was accepted"
+        except Exception:
+            pass            # refusing by raising is fine
     if verify_sign(pk, msg + b"x", sig):
         return "other message accepted"
     other = bytes(SigningKey(rng.randbytes(32)).verify_key)
